@@ -54,7 +54,7 @@ VARIANTS = ("same", "same", "wrong", "welcome_error", "crowded", "solo",
 
 
 def configs(tier):
-    return [{"spake": "real" if i == 0 else "stub", "faults": i % 4 != 1,
+    return [{"spake": "real" if i == 0 else "stub", "reentrant": i % 3 == 1, "faults": i % 4 != 1,
              "dilate": i in (3, 6)} for i in range(8)]
 
 
